@@ -16,8 +16,9 @@ func TestMyProbe(t *testing.T) {
 	dir := ksrig.ScratchDir("myprobe")
 	ks, _ := ksrig.V1(dir, ksrig.RandBytes(32), keystore.InfiniteCacheSize)
 	ksrig.GenClient(ks, []byte("client_owner"))
-	tables := []TableSpec{{Name: "t", Cols: []ColSpec{{Name: "id", AppType: fakepg.Int4, StoreType: fakepg.Int4}, {Name: "note", AppType: fakepg.Text, StoreType: fakepg.Text}, {Name: "data", Kind: "enc", Envelope: "acrablock", AppType: fakepg.Bytea, StoreType: fakepg.Bytea}}}}
-	w, err := NewMyWorld(WorldOpts{Tables: tables, KS: ks, Clients: []string{"client_owner"}})
+	ksrig.GenClient(ks, []byte("client_other"))
+	tables := []TableSpec{{Name: "t", Cols: []ColSpec{{Name: "id", AppType: fakepg.Int4, StoreType: fakepg.Int4}, {Name: "note", AppType: fakepg.Text, StoreType: fakepg.Text}, {Name: "data", Kind: "enc", Envelope: "acrablock", DataType: "bytes", OnFail: "ciphertext", AppType: fakepg.Bytea, StoreType: fakepg.Bytea}}}}
+	w, err := NewMyWorld(WorldOpts{Tables: tables, KS: ks, Clients: []string{"client_owner", "client_other"}})
 	if err != nil {
 		t.Fatal(err)
 	}
@@ -29,8 +30,10 @@ func TestMyProbe(t *testing.T) {
 	if os.Getenv("PROBE_DEBUG") != "" {
 		logrus.SetLevel(logrus.DebugLevel)
 	}
-	for _, q := range []string{"select data from t", "select data as x from t", "select note as y, data as x from t", "select id as i, data from t", "select data as x, id from t"} {
-		r := ac.Query(q)
+	oc, _ := DialMy(w.Acras["client_other"].Port, 0)
+	defer oc.Close()
+	for _, q := range []string{"select id, data from t order by id"} {
+		r := oc.Query(q)
 		t.Logf("%-40s -> err=%v cols=%v rows=%v", q, r.Err, r.Cols, r.Rows)
 	}
 	logrus.SetLevel(logrus.InfoLevel)
